@@ -7,7 +7,7 @@ cp /repo/Cargo.lock harness/Cargo.lock
 (cd harness && cargo build --release --offline 2>&1 | tail -3)
 mkdir -p work evidence replays
 # the specification must parse
-for m in MCLive MatchResultMod TraceMres Orders Level LevelConc LevelSeq LevelSeqMC MCSeq Snapshot SnapMC Queue QueueSeqMC QueueConcMC Uuid Codec MCCodec MCGrid ApaEquiv TraceCommon TraceLevel TraceSeq TraceQueue TraceUuid TraceGrid TraceCodec TraceSnapFault MCTraceLevel MCTraceSeq; do
+for m in Misc TraceMisc MCLive MatchResultMod TraceMres Orders Level LevelConc LevelSeq LevelSeqMC MCSeq Snapshot SnapMC Queue QueueSeqMC QueueConcMC Uuid Codec MCCodec MCGrid ApaEquiv TraceCommon TraceLevel TraceSeq TraceQueue TraceUuid TraceGrid TraceCodec TraceSnapFault MCTraceLevel MCTraceSeq; do
   (cd spec && java -cp /opt/veriftools/tla/tla2tools.jar:/opt/veriftools/tla/CommunityModules-deps.jar tla2sany.SANY $m.tla >/dev/null 2>&1) || { echo "SANY failed on $m"; exit 1; }
 done
 echo setup ok
